@@ -162,6 +162,23 @@ def small_helper_inliner(lib, prefixes, api_prefixes=('for', 'to', 'is', 'print'
     return inliner
 
 
+def _text_parts(p):
+    """parts of a term that is a piece of text: a string literal, a template, or str(x) (the hole x); else None"""
+    if len(p.t) != 1:
+        return None
+    (k, v), = p.t.items()
+    if v != 1 or len(k) != 1:
+        return None
+    a = k[0]
+    if a[0] == 'str':
+        return [p.key()]
+    if a[0] == 'fstr':
+        return list(a[1])
+    if a[0] == 'fn' and a[1] == 'str' and len(a[2]) == 1:
+        return [a[2][0]]
+    return None
+
+
 def is_pow2(n):
     return n > 0 and n & (n - 1) == 0
 
@@ -285,6 +302,11 @@ class Canon:
         if k == 'bin':
             op = a[0]
             l, r = self(a[1]), self(a[2])
+            if op == '+' and self.lang == 'py':
+                # concatenation of text pieces is the template those pieces spell: "(" + str(x) + " + 4)" is f"({x} + 4)"
+                lp, rp = _text_parts(l), _text_parts(r)
+                if lp is not None and rp is not None:
+                    return Poly.atom(('fstr', tuple(lp + rp)))
             if op == '+':
                 return l + r
             if op == '-':
@@ -453,6 +475,26 @@ def formula_atoms(f, out=None):
         formula_atoms(f[1], out)
         formula_atoms(f[2], out)
     return out
+
+
+def term_formula(p):
+    """truth of a canonical term: a term that *is* a comparison, a negation or a conjunction / disjunction of such (the value
+    of a named boolean local, say) is read back as that formula; any other term t as the opaque proposition "t is true"."""
+    if p.is_const():
+        return ('true',) if p.const_value() else ('false',)
+    atoms = p.atoms()
+    if len(p.t) == 1 and len(atoms) == 1 and list(p.t.values()) == [1]:
+        a0 = next(iter(atoms))
+        if a0[0] == 'not':
+            return f_not(term_formula(Poly(dict(a0[1]))))
+        if a0[0] == 'cmp':
+            if a0[1] in ('<', '<=', '>', '>=', '==', '!='):
+                return cmp_formula(a0[1], Poly(dict(a0[2])), Poly(dict(a0[3])))
+            if a0[1] == '&&':
+                return f_and(term_formula(Poly(dict(a0[2]))), term_formula(Poly(dict(a0[3]))))
+            if a0[1] == '||':
+                return f_or(term_formula(Poly(dict(a0[2]))), term_formula(Poly(dict(a0[3]))))
+    return ('bool', p.key())
 
 
 def formula_poly(f):
@@ -683,17 +725,7 @@ class SymExec:
             args = ([a[1]] if a[1] is not None else []) + list(a[2])
             return cmp_formula(self.cmp_calls[a[0]], c(args[0]), c(args[1]))
         p = self.canon(env)(e)
-        if p.is_const():
-            return ('true',) if p.const_value() else ('false',)
-        # truthiness of an integer/pointer/boolean term: term != 0
-        atoms = p.atoms()
-        if len(p.t) == 1 and len(atoms) == 1:
-            a0 = next(iter(atoms))
-            if a0[0] == 'not':
-                return ('not', ('bool', a0[1]))
-            if a0[0] == 'cmp':
-                return cmp_formula(a0[1], Poly(dict(a0[2])), Poly(dict(a0[3])))
-        return ('bool', p.key())
+        return term_formula(p)
 
     def run(self, func_name, body, env):
         s = Summary(func_name)
